@@ -48,7 +48,10 @@ ASSUMPTIONS = [
 RULE = ("knapsack: <=12 items (thorough <=16), values/weights/capacity integers or k/4, k/10, with zero "
         "weights, zero capacity, exact fills, near fills, ties, minimize/maximize, capacities whose scaling is lossy "
         "(32.3, >100, >25000) and a malformed stream; bin packing: <=12 items, the four heuristics under several "
-        "spellings, zero sizes, items equal to the capacity, exact fills. Non-trivial = at least one item rejected "
+        "spellings, zero sizes, items equal to the capacity, exact fills; plus, with a fixed share in both tiers, "
+        "multisets of 2-4 distinct sizes (8-40 items, patterns a*x+b*y=C) and the classical bad families for "
+        "FFD/BFD/FF (C/2+e, C/4+2e, C/4+e, C/4-2e; big+2 small / 2 mid+small; 1/7,1/3,1/2), each with its planted "
+        "packing (verified by chkPack) so that the 11/9 clause is decidable for any n. Non-trivial = at least one item rejected "
         "by capacity (knapsack: the items do not all fit but one does; packing: >=2 bins opened with >=3 items); "
         "distinct by canonical case")
 
@@ -242,6 +245,92 @@ def gen_pack(rng, big: bool):
     return {"fn": "binpack", "sizes": sizes, "capacity": [ck, d, fl], "algorithm": algo, "flags": [ub, dec]}
 
 
+def _pick_algo(rng):
+    ub, dec_ = rng.random() < 0.6, rng.random() < 0.6
+    return rng.choice(SPELL[(ub, dec_)]), [ub, dec_]
+
+
+def _from_bins(rng, bins, C, shuffle=True):
+    """instance with a planted packing: `bins` = list of lists of integer sizes, each summing to <= C"""
+    items = [(s, b) for b, blist in enumerate(bins) for s in blist]
+    if shuffle:
+        rng.shuffle(items)
+    algo, flags = _pick_algo(rng)
+    fl = rng.random() < 0.3
+    return {"fn": "binpack", "sizes": [[s, 1, fl] for s, _ in items], "capacity": [C, 1, fl], "algorithm": algo,
+            "flags": flags, "planted": [[b for _, b in items], len(bins)]}
+
+
+def gen_pack_few(rng, big: bool):
+    """2-4 distinct sizes with several fit patterns (a*x + b*y = C among them), 8-40 items, planted packing"""
+    C = rng.choice([10, 12, 20, 24, 30, 60, 100, 120])
+    for _ in range(50):
+        a, b = rng.randint(1, 3), rng.randint(1, 3)
+        x = rng.randint(max(1, C // 10), C // 2)
+        if C - a * x > 0 and (C - a * x) % b == 0 and (C - a * x) // b != x:
+            break
+    else:
+        a, b, x = 1, 1, C // 3
+    y = (C - a * x) // b
+    sizes = [x, y] + rng.sample(range(1, C * 2 // 3 + 1), rng.randint(0, 2))
+    exact_pat = [x] * a + [y] * b
+    nmax = 40 if big else 28
+    target = rng.randint(8, nmax)
+    bins, n = [], 0
+    while n < target:
+        if rng.random() < 0.5:
+            pat = list(exact_pat)
+        else:
+            pat, rem = [], C
+            while True:
+                fit = [z for z in sizes if z <= rem]
+                if not fit or (pat and rng.random() < 0.15):
+                    break
+                z = rng.choice(fit)
+                pat.append(z)
+                rem -= z
+        bins.append(pat)
+        n += len(pat)
+    return _from_bins(rng, bins, C)
+
+
+def gen_pack_adversarial(rng, big: bool):
+    """classical bad instances for the any-fit heuristics, scaled to integers, with their optimal packing planted"""
+    kind = rng.randrange(4)
+    if kind == 0:   # Johnson: FFD = 11/9 OPT.  C/2+e, C/4+2e, C/4+e, C/4-2e in numbers 6m, 6m, 6m, 12m
+        q = rng.randint(50, 300)
+        C, e = 4 * q, rng.randint(1, max(1, q // 10))
+        m = rng.choice([1, 1, 2] if not big else [1, 2, 3])
+        A, B, D, E = 2 * q + e, q + 2 * e, q + e, q - 2 * e
+        bins = [[A, D, E] for _ in range(6 * m)] + [[B, B, E, E] for _ in range(3 * m)]
+    elif kind == 1:  # big + two smalls, one bin of two mids + small: runs of equal sizes with room left in earlier bins
+        C = rng.choice([100, 100, 60, 200])
+        s = rng.randint(C // 8, C // 5)
+        big_ = rng.randint(C - 3 * s + 1, C - 2 * s)
+        mid = rng.randint((C - big_) + 1, (C - s) // 2) if (C - big_) + 1 <= (C - s) // 2 else (C - s) // 2
+        m = rng.randint(1, 6 if not big else 12)
+        if rng.random() < 0.4:
+            C, big_, mid, s = 100, 60, 41, 18
+        bins = [[big_, s, s] for _ in range(m)] + [[mid, mid, s]]
+    elif kind == 2:  # first-fit's 17/10 family: 1/7+e, 1/3+e, 1/2+e, small ones first
+        C = 420 * rng.randint(1, 3)
+        e = rng.randint(1, C // 210)
+        m = rng.randint(2, 10 if not big else 14)
+        bins = [[C // 7 + e, C // 3 + e, C // 2 + e] for _ in range(m)]
+        c = _from_bins(rng, bins, C, shuffle=False)
+        order = sorted(range(len(c["sizes"])), key=lambda i: c["sizes"][i][0])  # increasing: worst case for FF/BF
+        c["sizes"] = [c["sizes"][i] for i in order]
+        c["planted"][0] = [c["planted"][0][i] for i in order]
+        return c
+    else:            # halves and thirds: C/2+e with C/2-e, C/3+e runs
+        C = 6 * rng.randint(10, 60)
+        e = rng.randint(1, C // 30 + 1)
+        m = rng.randint(2, 6 if not big else 10)
+        bins = [[C // 2 + e, C // 2 - e] for _ in range(m)] + [[C // 3 - e, C // 3, C // 3 + e] for _ in range(m)] \
+            + [[C // 3 + e, C // 3 + e, C // 3 - 2 * e] for _ in range(rng.randint(0, m))]
+    return _from_bins(rng, bins, C, shuffle=rng.random() < 0.7)
+
+
 def N(k, d=1, f=False):
     return [k, d, f]
 
@@ -376,7 +465,7 @@ def to_request(case, out):
     rd = [[fr(c), [fr(x) for x in ss]] for c, ss in pack_readings(case)] if n <= 12 and pack_valid(case) else []
     return ["pack", [rat(x) for x in case["sizes"]], [fr(c) for c in pack_caps(case)[:2]],
             [bits(x) for x in case["sizes"]], bits(case["capacity"]), algo,
-            res["sol"] if res and k is not None else None, k, rd]
+            res["sol"] if res and k is not None else None, k, rd, case.get("planted")]
 
 
 # ---------------------------------------------------------------------------
@@ -494,10 +583,42 @@ def judge_knap(ctx, case, out, reply):
     ctx.case(canon, nontrivial, {"case": case, "impl": r, "mirror": [m_status, m_sel], "optimum": str(sign * best_s)})
 
 
+def equal_size_runs(case):
+    """coverage only (decides nothing): does the processing order contain a run of equal sizes, and does an item of
+    such a run meet an EARLIER bin (than the one its predecessor went to) that still has room?  Exact simulation."""
+    S = [frac(x) for x in case["sizes"]]
+    C = frac(case["capacity"])
+    ub, dec_ = case["flags"]
+    order = sorted(range(len(S)), key=lambda i: -S[i]) if dec_ else list(range(len(S)))
+    keys, bins, prev = set(), [], None
+    for i in order:
+        s = S[i]
+        if s == 0:
+            if not bins:
+                bins.append(C)
+            prev = None
+            continue
+        if prev is not None and prev[0] == s:
+            keys.add("pack:equal_size_run")
+            if any(bins[b] >= s for b in range(prev[1])):
+                keys.add("pack:equal_size_run_with_room_in_earlier_bin")
+        fit = [b for b in range(len(bins)) if bins[b] >= s]
+        if not fit:
+            bins.append(C)
+            b = len(bins) - 1
+        elif ub:
+            b = min(fit, key=lambda j: (bins[j], j))
+        else:
+            b = fit[0]
+        bins[b] -= s
+        prev = (s, b)
+    return sorted(keys)
+
+
 def judge_pack(ctx, case, out, reply):
     fn = "solve_bin_pack"
     rep = {"case": case, "impl": out, "model": reply}
-    (f_status, f_asg, f_k), (r_status, r_asg, r_k, r_chk), chk_impl, optw, lb = reply
+    (f_status, f_asg, f_k), (r_status, r_asg, r_k, r_chk), chk_impl, optw, lb, planted_ok = reply
     valid = pack_valid(case)
     n = len(case["sizes"])
     ub, dec_ = case["flags"]
@@ -536,6 +657,20 @@ def judge_pack(ctx, case, out, reply):
         ctx.count("pack:optimum_certified")
         if opt_lo != opt_hi:
             ctx.count("pack:optimum_depends_on_tolerance")
+    if case.get("planted") is not None:
+        # a packing known by construction, accepted by the verified checker: OPT <= its bin count (sound for alarms)
+        if not planted_ok:
+            raise RuntimeError(f"planted packing rejected by the verified checker: {case}")
+        kp = case["planted"][1]
+        ctx.count("pack:planted_packing")
+        if kp == lb:
+            ctx.count("pack:planted_is_optimal")
+        if opt_hi is None:
+            opt_lo, opt_hi = lb, kp
+        elif kp < opt_lo:
+            raise RuntimeError(f"planted packing with {kp} bins below the certified optimum {opt_lo}: {case}")
+    for key in equal_size_runs(case):
+        ctx.count(key)
     if not r["shape"]:
         ctx.fail(fn, "bad_solution_shape", f"solution is not a tuple of non-negative ints: {r['sol']}", rep)
         ctx.case(canon, False)
@@ -572,7 +707,7 @@ def judge_pack(ctx, case, out, reply):
             if r["status"] == "OPTIMAL" and k > opt_hi:
                 ctx.fail(fn, "optimal_not_minimal", f"status OPTIMAL with {k} bins, {opt_hi} suffice", rep)
             if dec_ and 9 * k > 11 * opt_hi + 6:
-                ctx.fail(fn, "bound_11_9_exceeded", f"{name} used {k} bins, optimum {opt_hi}"
+                ctx.fail(fn, "bound_11_9_exceeded", f"{name} used {k} bins, a verified packing uses {opt_hi}"
                          f"{'' if opt_lo == opt_hi else ' (capacity shrunk by the float tolerance)'}: "
                          "above 11/9*OPT + 6/9", rep)
         elif r["status"] == "OPTIMAL" and k > max(1, lb):
@@ -734,12 +869,17 @@ def smaller(case):
         for i in range(len(case["sizes"])):
             c = copy.deepcopy(case)
             del c["sizes"][i]
+            if c.get("planted") is not None:   # the planted packing restricted to the remaining items (bins may go
+                asg = list(c["planted"][0])    # unused: renumber)
+                del asg[i]
+                ren = {b: j for j, b in enumerate(sorted(set(asg)))}
+                c["planted"] = [[ren[b] for b in asg], len(ren)]
             out.append(c)
         for i, x in enumerate(case["sizes"]):
             for y in ([0, x[1], x[2]], [x[0] // 2, x[1], x[2]], [x[0] - 1, x[1], x[2]]):
                 if y != x and 0 <= y[0]:
                     c = copy.deepcopy(case)
-                    c["sizes"][i] = y
+                    c["sizes"][i] = y          # smaller size: a planted packing stays valid
                     out.append(c)
     return out
 
@@ -797,6 +937,10 @@ def run(ctx, budget):
         k = gen_knap(ctx.rng, big and i % 4 == 0)
         cases.append(k)
         cases.append(gen_pack(ctx.rng, big and i % 4 == 0))
+        if i % 6 == 0:
+            cases.append(gen_pack_few(ctx.rng, big))
+        if i % 12 == 1:
+            cases.append(gen_pack_adversarial(ctx.rng, big))
         if i % 3 == 0 and knap_valid(k) and k["values"]:   # the helpers named in the property's anchors, directly
             cases.append(dict(k, fn="fallback"))
             cases.append({"fn": "intcap", "weights": k["weights"], "capacity": k["capacity"]})
